@@ -342,7 +342,7 @@ pub fn run_memory(ctx: &Ctx) {
                 }
                 pos += stride;
             }
-            for _ in 0..ctx.tier.pick(60, 1500) {
+            for _ in 0..ctx.tier.pick(60, 6000) {
                 let (m, name) = structured(reqs, &mut rng);
                 mem_case(ctx, &svc, &orig, &m, &name, &desc);
             }
